@@ -4,13 +4,16 @@ import (
 	"fmt"
 	"regexp"
 	"strings"
+	"unicode/utf8"
 
 	"github.com/robfig/soy/ast"
 	"github.com/robfig/soy/soyhtml"
+	"github.com/robfig/soy/soyjs"
 	"github.com/robfig/soy/soymsg"
 
 	"verif/fw"
 	"verif/gen"
+	"verif/jsx"
 	"verif/ref"
 )
 
@@ -390,6 +393,13 @@ func init() {
 					return fw.Result{Verdict: fw.Violated, Key: "raw-special-in-escaping-context@" + path, Case: cd,
 						Msg: fmt.Sprintf("value %q via %s chain %q (modes %q/%q, callee %q/%q): output %q: %s", fw.Trim(valString(val), 80), path, chainSrc(ch), nsMode, tMode, cNs, cT, fw.Trim(inner, 200), why)}
 				}
+				// the same predicate on what the generated JavaScript returns for the same program and value (every
+				// 32nd case; values JSON can carry; under node only)
+				if i%32 == 3 && utf8.ValidString(valString(val)) && !strings.HasPrefix(path, "msg-") {
+					if r := c03JSPass(ctx, files, d, val, path, ch, tags, cd); r != nil {
+						return *r
+					}
+				}
 			} else {
 				ctx.Obs("control_group_raw_passthrough", 1)
 			}
@@ -429,4 +439,40 @@ func valString(v ref.Value) string {
 		return "<" + v.K.String() + ">"
 	}
 	return s
+}
+
+// c03JSPass renders the program through the generated JavaScript and applies the safety predicate to its output.
+func c03JSPass(ctx *fw.Ctx, files []srcFile, d map[string]ref.Value, val ref.Value, path string, ch c03Chain, tags []string, cd interface{}) *fw.Result {
+	e, err := engine()
+	if err != nil || e.Name() != "node" {
+		return nil
+	}
+	reg, err := compileRegistry(files, nil)
+	if err != nil {
+		return nil
+	}
+	js, err := genJS(reg, soyjs.Options{})
+	if err != nil {
+		return &fw.Result{Verdict: fw.Violated, Key: "js-generation-fails@" + path, Case: cd, Msg: errText(err)}
+	}
+	if file, err := loadBundleJS(e, reg, js); err != nil {
+		if _, isEng := err.(jsx.EngineError); isEng {
+			return nil
+		}
+		return &fw.Result{Verdict: fw.Violated, Key: "js-does-not-load@" + path, Case: cd, Msg: file + ": " + fw.Trim(err.Error(), 300)}
+	}
+	out, typ, jerr := e.Eval("na.main(" + jsonArg(goData(d)) + ", null, null)")
+	if jerr != nil || typ != "string" {
+		return nil // what the JavaScript side accepts at all is C04's subject
+	}
+	inner := out
+	if l, rr := strings.Index(out, "["), strings.LastIndex(out, "]"); l >= 0 && rr > l {
+		inner = out[l+1 : rr]
+	}
+	ctx.Obs("safety_checked_js", 1)
+	if ok, why := htmlSafe(inner, tags); !ok {
+		return &fw.Result{Verdict: fw.Violated, Key: "js:raw-special-in-escaping-context@" + path, Case: map[string]interface{}{"case": cd, "js_output": out, "generated_js": js},
+			Msg: fmt.Sprintf("value %q via %s chain %q: the generated JavaScript returns %q: %s", fw.Trim(valString(val), 80), path, chainSrc(ch), fw.Trim(inner, 200), why)}
+	}
+	return nil
 }
